@@ -1147,3 +1147,116 @@ def unit_add(layout, timeout_ms=20000, canary=False):
     r = run_unit(f"number_ordered_form:__add__[{'+'.join(layout)}]" + ("[canary]" if canary else ""), harness, functions=[(MODULE, "NumberOrderedForm.__add__")], timeout_ms=timeout_ms)
     r.bounded.append(f"mode layout {list(layout)}")
     return r
+
+
+# ==================================================================================================
+# __pow__ with an integer exponent (C08 "integer power"): exp == 0 gives the identity form, a positive integer the exp-fold product of
+# `self` with itself (loop rule: after k iterations `result` denotes self^(k+1); the product is the contract of __mul__).  Any other
+# way of producing the power (e.g. a closed form for special terms) reads the term dictionary and leaves this contract: it is reported
+# as undecided (exit 2) unless the native battery refutes it.
+# ==================================================================================================
+
+class PowAbs(Model):
+    """self ** k for symbolic k >= 1 (k == 1: self itself)."""
+
+    def __init__(self, owner, k, is_self=False):
+        self.owner, self.k, self.is_self = owner, k, is_self
+
+    def m_isinstance(self, eng, clsname):
+        return clsname == "NumberOrderedForm"
+
+    def m_getattr(self, eng, name):
+        if name == "operators":
+            return self.owner.ops
+        raise Unsupported(f"NumberOrderedForm.{name} in __pow__ (the term dictionary is opaque in this contract)")
+
+    def m_binop(self, eng, op, other, reflected):
+        if isinstance(op, ast.Mult) and isinstance(other, PowAbs) and other.owner is self.owner:
+            eng.used_models.add("contract:__mul__ denotes the operator product (verified as its own unit)")
+            return PowAbs(self.owner, self.k + other.k)     # powers of one element commute
+        return NotImplemented
+
+
+class PowHarness:
+    def __init__(self, layout):
+        self.layout = tuple(layout)
+
+    def __call__(self, eng):
+        layout, k = self.layout, len(self.layout)
+        self.ops = STup([OpModel(kd, i) for i, kd in enumerate(layout)])
+        node = frontend.find(MODULE, "NumberOrderedForm.__pow__")
+        owner = self
+        exp = eng.fresh("exp")
+        eng.assume(exp >= 0)
+        made = []
+
+        class Cls(Model):
+            def m_call(self2, e, args, kwargs):
+                made.append(args)
+                return ("constructed", args)
+        cls = Cls()
+        cls.name = "NumberOrderedForm"
+        loops = []
+
+        class SymRangeN(Model):
+            def __init__(s, n):
+                s.n = n
+
+            def m_for(s, e, stmt, env):
+                assigned = {t.id for st in ast.walk(ast.Module(body=stmt.body, type_ignores=[])) if isinstance(st, (ast.Assign, ast.AugAssign))
+                            for t in (st.targets if isinstance(st, ast.Assign) else [st.target]) if isinstance(t, ast.Name)}
+                if assigned != {"result"} or stmt.orelse:
+                    raise Unsupported("loop of __pow__ assigns other variables than `result`")
+                r0 = env.lookup("result")
+                e.oblige("loop:starts-from-self", z3.BoolVal(isinstance(r0, PowAbs) and r0.is_self))
+                j = e.fresh("iteration")
+                e.assume(z3.And(j >= 0, j < s.n))
+                inv = PowAbs(owner, j + 1)
+                env.set("result", inv)
+                e.assign(stmt.target, SI(j), env)
+                try:
+                    e.exec_block(stmt.body, env)
+                except (_Cont, _Brk):
+                    raise Unsupported("continue / break in the loop of __pow__")
+                r1 = env.lookup("result")
+                ok = isinstance(r1, PowAbs) and r1 is not inv
+                e.oblige("loop:every-iteration-multiplies-by-self-once", r1.k == j + 2 if ok else z3.BoolVal(False), detail="invariant: after j iterations result = self^(j+1)")
+                loops.append(s.n)
+                env.set("result", PowAbs(owner, s.n + 1))
+
+        def rng(e, *a):
+            if len(a) == 1:
+                return SymRangeN(zi(a[0]))
+            raise Unsupported("range with several arguments")
+        eng.globals.update({"NumberOrderedForm": cls, "type": Builtin("type", lambda e, x: cls), "range": Builtin("range", rng),
+                            "sympy": Namespace("sympy", {"Integer": TypeObj("Integer"), "Expr": TypeObj("Expr")}),
+                            "Tuple": Builtin("Tuple", lambda e, *a: STup(list(a))), "Zero": 0, "One": 1})
+        slf = PowAbs(self, z3.IntVal(1), is_self=True)
+        res = eng.call(Closure(node, Env(None, {}), "__pow__"), [slf, SI(exp)], {})
+        if eng.branch(exp == 0):
+            ok = isinstance(res, tuple) and res[0] == "constructed" and len(made) == 1
+            eng.oblige("zero:constructs-a-form", z3.BoolVal(ok), detail=repr(res)[:200])
+            if ok:
+                args = res[1]
+                okops = args[0] is self.ops
+                terms = eng.as_seq(args[1])
+                okt = len(terms.items) == 1
+                eng.oblige("zero:same-operator-list", z3.BoolVal(okops))
+                eng.oblige("zero:exactly-one-term", z3.BoolVal(okt))
+                if okt:
+                    t = eng.as_seq(terms.items[0])
+                    pw = eng.as_seq(t.items[0])
+                    eng.oblige("zero:the-term-has-no-operators-and-coefficient-one",
+                               z3.BoolVal(len(pw.items) == k and all(isinstance(x, int) and x == 0 for x in pw.items) and t.items[1] == 1), detail=repr(t)[:200])
+            return
+        ok = isinstance(res, PowAbs)
+        eng.oblige("positive:returns-a-product-of-copies-of-self", z3.BoolVal(ok), detail=repr(res)[:200])
+        if ok:
+            eng.oblige("positive:exactly-exp-factors", res.k == exp, detail="self ** exp = self * ... * self (exp factors)")
+
+
+def unit_pow(layout, timeout_ms=20000):
+    nm = f"number_ordered_form:__pow__[{'+'.join(layout)}]"
+    r = run_unit(nm, PowHarness(tuple(layout)), functions=[(MODULE, "NumberOrderedForm.__pow__")], timeout_ms=timeout_ms)
+    r.bounded.append(f"mode layout {layout} (number of modes concrete; exponent any non-negative integer)")
+    return r
